@@ -35,6 +35,7 @@ class Ctx:
         self.timeout_ms = 30000 if tier == "quick" else 120000
         self.trusted = set()
         self.input_reals = []
+        self.default_hint = None      # witness region tried when a validity query comes back unknown (finds counterexamples in hard arithmetic)
 
     # ------------------------------------------------------------------ building
     def executor(self, **kw):
@@ -111,6 +112,10 @@ class Ctx:
         out = []
         for o in self.obls:
             r, model, dt, backend = vc.solve(o.assume + [NOT(o.goal)], self.timeout_ms, seed=self.seed)
+            if r == "unknown" and self.default_hint and o.expect == "valid":
+                r2, model2, dt2, b2 = vc.solve(o.assume + list(self.default_hint) + [NOT(o.goal)], self.timeout_ms, seed=self.seed)
+                dt += dt2
+                if r2 == "sat": r, model, backend = r2, model2, b2 + "(hinted)"
             if r == "unknown":
                 r, model, dt2, backend = vc.solve(o.assume + [NOT(o.goal)], self.timeout_ms * 4, seed=self.seed + 7)
                 dt += dt2
